@@ -70,6 +70,9 @@ func (m *c01Mon) exec(p any) (any, error) {
 	if vNondet[bool]("execFail") {
 		m.state = c01ExecFailed
 		m.lastErr = vNewErr()
+		if vNondet[bool]("execFailWithValue") {
+			return &vTok{id: 666}, m.lastErr // a failed attempt's value is not a result
+		}
 		return nil, m.lastErr
 	}
 	m.state = c01ExecOK
@@ -93,6 +96,10 @@ func (m *c01Mon) fallback(p any, err error) (any, error) {
 		return nil, m.endErr
 	}
 	m.state = c01FbOK
+	if vNondet[bool]("fbReturnsNil") {
+		m.resultTok = nil // recovering with a nil result is a result too
+		return nil, nil
+	}
 	m.resultTok = m.fbTok
 	return m.fbTok, nil
 }
